@@ -75,6 +75,27 @@ check("C09", "model_checking",
       "Sequential consistency; scheduling points only at jennifer's own package-level variables; more jobs / preemptions are outside the bound.",
       "DESIGN.md §3 C09", "E3+E4+E1")
 
+check("C13", "exploration",
+      "reflection-discovered list constructs x arities x every placement of <= 2 (3) null items of 16 kinds (choice-point explorer), differential raw-rendering oracle; Empty() placeholder oracle; re-render after a placeholder changes; shared argument slices",
+      "All 56 list constructs found in the current API are exercised at every slot with every null-item kind within the injection bound; the oracle is differential (with vs without the items) on fresh objects.",
+      "Empty Types() as an item and Dict{} are not in the property's list; program-level injections belong to the C01 bridge.",
+      "DESIGN.md §3 C13", "E1")
+check("C14", "exploration",
+      "reflection over the whole exported API (120 constructs) x cartesian product of tiny argument domains; byte equality across function / method / group / Func forms and render entry points; callback counters",
+      "Every exported construct of the current tree (methods by reflection, package functions from a list regenerated from the sources at every run) is called in every form with every argument combination of the domains.",
+      "Argument values outside the tiny domains are outside the bound.",
+      "DESIGN.md §3 C14", "E1")
+check("C15", "exploration",
+      "exhaustive enumeration of comment texts (all strings <= 4 (5) over 12 adversarial symbols) x every slot / item end of 8 hosts x 3 forms, raw and formatted; go/scanner token-sequence oracle; file-level comment lists and canonical paths",
+      "Every text of the domain is placed at every position of every host container and both outputs are scanned; containment is decided by comparing code-token sequences.",
+      "CR excluded; after gofmt survival is required line-wise (gofmt rewrites comment text), verbatim on the raw output.",
+      "DESIGN.md §3 C15", "E1-range")
+check("C18", "exploration",
+      "complete enumeration of the installed toolchain's package directories (names parsed from package clauses) alone under 7 scenarios and in every ordered pair; gennames built and run, its table compared entry by entry",
+      "The finite domain named by the property - every package directory of GOROOT/src - is covered completely, as are all ordered pairs.",
+      "Package names come from go/parser over GOROOT/src, not from jennifer's table.",
+      "DESIGN.md §3 C18", "E1-range")
+
 NOT_YET = {}
 ids = [json.loads(l)['id'] for l in open('/verif/properties.jsonl')]
 m = {
